@@ -539,7 +539,22 @@ static RunResult exec_table(const Plan &p)
 		res.nontrivial = nblocks >= 2 && (p.geti("pool", -1) >= 0 || p.gets("wfrag", "none") != "none" || p.geti("prefix", 0) > 0 || rint != 16);
 	else if (prop == "C02") res.nontrivial = nblocks >= 2 && res.probes.count("query-nonempty");
 	else if (prop == "C03") res.nontrivial = cl.had_seek_after_cross;
-	else if (prop == "C08") res.nontrivial = nblocks >= 2 && res.probes.count("add-refused");
+	else if (prop == "C08") {
+		// a refusal immediately before or after the add that cut a block
+		std::set<Bytes> cutters;
+		if (c.have_df) for (size_t b = 1; b < c.df.data.size(); b++) if (!c.df.data[b].entries.empty()) cutters.insert(c.df.data[b].entries.front().key);
+		Bytes last; bool any = false, prev_refused = false, prev_cut = false, adjacent = false;
+		for (auto &o : adds) {
+			Bytes k = o.argb(0);
+			bool ok = !any || mfmt::cmp(k, last) > 0;
+			bool cut = ok && cutters.count(k);
+			if ((!ok && prev_cut) || (cut && prev_refused)) adjacent = true;
+			if (ok) { last = k; any = true; }
+			prev_refused = !ok; prev_cut = cut;
+		}
+		if (adjacent) res.probes["refusal-adjacent-to-block-cut"]++;
+		res.nontrivial = adjacent;
+	}
 	else if (prop == "C11") res.nontrivial = nblocks >= 2 && (cl.had_any_seek || res.probes.count("query-nonempty"));
 	return res;
 }
